@@ -274,6 +274,9 @@ def ite_sv(c, a: SV, b: SV) -> SV:
     return from_flat(ty, [z3.If(c, x, y) for x, y in zip(fa, fb)])
 
 
+CLASS_LCA = None
+
+
 def unify(a: Ty, b: Ty) -> Ty:
     if a == b:
         return a
@@ -282,7 +285,10 @@ def unify(a: Ty, b: Ty) -> Ty:
     if b.kind == "none":
         return a
     if a.kind == b.kind == "obj":
-        return OBJ(a.cls if a.cls == b.cls else None)
+        if a.cls == b.cls:
+            return a
+        # nearest common ancestor in the class hierarchy of the repository (set by the engine); None = no static class
+        return OBJ(CLASS_LCA(a.cls, b.cls) if CLASS_LCA is not None and a.cls and b.cls else None)
     if a.kind == b.kind and len(a.elts) == len(b.elts):
         return Ty(a.kind, a.cls if a.cls == b.cls else (a.cls or b.cls), tuple(unify(x, y) for x, y in zip(a.elts, b.elts)))
     raise TypeError(f"cannot unify {a} and {b}")
